@@ -38,6 +38,8 @@ type pipe struct {
 	// trailAt > 0: the "intermediate result larger than the final one" variant is available with
 	// filler in front of / behind the input of stage trailAt.
 	trailAt int
+	// trailExact: the cross-reference stream writer puts the filler at trailAt too (else at its last stage)
+	trailExact bool
 }
 
 func fk(ks ...pdfgen.FilterKind) []pdfgen.FilterSpec {
@@ -321,6 +323,8 @@ type genCtx struct {
 	slowCap  int64   // largest decoded size where a stage is LZW / ASCIIHex / ASCII85 / RunLength (slow in pdfcpu and here)
 	dLimits  []int64 // MaxDecodeBytes values for every pipeline
 	dLarge   []int64 // ... for pipelines of Flate stages only
+	// decodes (from the decode table): does the entry point decode the site on this route?
+	decodes func(site, container string, decodeAll, strict bool, entry string) bool
 }
 
 func newGenCtx(thorough bool) *genCtx {
@@ -590,8 +594,11 @@ func bombDoc(site, container string, p pipe, n int64, trail int) ([]byte, []int6
 		parts.unref, err = mk([]byte("% unreferenced\n"), 'u')
 	case "xrefstm":
 		parts.xs = xrefStmSpec{Filters: p.fs, PadTo: int(n), Trail: trail}
+		if p.trailExact {
+			parts.xs.TrailAt = p.trailAt
+		}
 	case "objstm":
-		parts.os = &objStmSpec{Filters: p.fs, PadTo: int(n)}
+		parts.os = &objStmSpec{Filters: p.fs, PadTo: int(n), Trail: trail, TrailAt: p.trailAt}
 	}
 	if err != nil {
 		return nil, nil, err
